@@ -305,10 +305,13 @@ def veq(a, b):
             return False
         return z3.And(*[bz(veq(a.fields[f], b.fields[f]))
                         for f in a.fields]) if a.fields else True
-    if isinstance(a, tuple) and isinstance(b, tuple):
+    if isinstance(a, (tuple, list)) and isinstance(b, (tuple, list)):
         if len(a) != len(b):
             return False
-        return z3.And(*[bz(veq(x, y)) for x, y in zip(a, b)]) if a else True
+        rs = [veq(x, y) for x, y in zip(a, b)]
+        if all(isinstance(r, bool) for r in rs):
+            return all(rs)
+        return z3.And(*[bz(r) for r in rs])
     if isinstance(a, str) or isinstance(b, str):
         if isinstance(a, str) and isinstance(b, str):
             return a == b
